@@ -738,7 +738,7 @@ def str_join(sep, parts):
 class LazyBinStr:
     """f"{x:b}" for a symbolic non-negative x: a digit string whose *length* is symbolic (x.bit_length()).  Only what BIP39-style
     code does with it is modelled: len(), zfill(n) for n at least the greatest possible length (a SymStr of n digits) and a
-    prefix slice [:n] under the same condition on the length; anything else is unsupported (inconclusive)."""
+    case split on the value for anything else (indexing, iteration, concatenation)."""
 
     def __init__(self, x):
         self.x = x
@@ -758,11 +758,38 @@ class LazyBinStr:
             return _unsupported("zfill narrower than the binary rendering may be")
         return SymStr.mk([48 + ((x >> (n - 1 - i)) & 1) for i in range(n)])
 
+    # every other use is a case split on the value (what f"{x:b}" did before this class existed: digit strings consumed by code, as in the Montgomery ladder)
+    def _concrete(self):
+        return format(concretize(self.x), "b")
+
     def __getitem__(self, i):
-        return _unsupported("indexing an unpadded binary rendering")
+        return self._concrete()[i]
+
+    def __iter__(self):
+        return iter(self._concrete())
+
+    def __len__(self):
+        return len(self._concrete())
+
+    def __add__(self, o):
+        return self._concrete() + o
+
+    def __radd__(self, o):
+        return o + self._concrete()
+
+    def __eq__(self, o):
+        return self._concrete() == o
+
+    def __hash__(self):
+        return hash(self._concrete())
+
+    def __getattr__(self, name):
+        if name.startswith("__"):
+            raise AttributeError(name)
+        return getattr(self._concrete(), name)
 
     def __str__(self):
-        return "<symbin>"
+        return self._concrete()
 
     def __format__(self, spec):
-        return "<symbin>"
+        return format(self._concrete(), spec)
